@@ -98,6 +98,10 @@ var globalAssumptions = []string{
 	"genlib2 templates are not verified, only their current output",
 }
 
+// extraTagSets lists, per property, the additional build configurations under which the functions
+// under contract are verified again (C20: the pure-Go divmod is only compiled with noasm).
+var extraTagSets = map[string][]string{"C20": {"noasm"}}
+
 func cmdCheck(args []string) {
 	fs := flag.NewFlagSet("check", flag.ExitOnError)
 	repo := fs.String("repo", "/repo", "repository root")
@@ -145,8 +149,32 @@ func cmdCheck(args []string) {
 			return false
 		}
 	}
+	progs := map[string]*Prog{}
 	keys := P.keysForProperty(*prop)
 	results := P.VerifyAll(keys, VerifyOpts{MaxRank: maxRank, Thorough: *tier == "thorough"}, solv)
+	// alternative build configurations: the same contracts are checked against the bodies selected
+	// by the other tag sets; their obligation names carry the tag as a prefix ("noasm:tensor.divmod#...")
+	for _, extra := range extraTagSets[*prop] {
+		P2, err := LoadProg(*repo, "verif,"+extra)
+		if err != nil {
+			fmt.Printf("govc: cannot load %s with tags %s: %v\n", *repo, extra, err)
+			os.Exit(2)
+		}
+		if err := P2.LoadContracts(); err != nil {
+			fmt.Printf("govc: contracts (%s): %v\n", extra, err)
+			os.Exit(2)
+		}
+		tagSets = append(tagSets, "verif,"+extra)
+		P2.namePrefix = extra + ":"
+		progs[extra+":"] = P2
+		for _, r := range P2.VerifyAll(P2.keysForProperty(*prop), VerifyOpts{MaxRank: maxRank, Thorough: *tier == "thorough"}, solv) {
+			for _, o := range r.Obls {
+				o.Name = extra + ":" + o.Name
+			}
+			r.Key = extra + ":" + shortKey(r.Key)
+			results = append(results, r)
+		}
+	}
 	lemmaRes := P.VerifyLemmas(*prop, maxRank, solv)
 
 	// aggregate
@@ -200,7 +228,7 @@ func cmdCheck(args []string) {
 		}
 		sort.Strings(names)
 		os.MkdirAll(filepath.Dir(claimsPath), 0o755)
-		data, _ := json.MarshalIndent(Claims{Property: *prop, Tags: P.tags, Obligations: names}, "", " ")
+		data, _ := json.MarshalIndent(Claims{Property: *prop, Tags: strings.Join(tagSets, " | "), Obligations: names}, "", " ")
 		os.WriteFile(claimsPath, append(data, '\n'), 0o644)
 		fmt.Printf("wrote %d claims to %s\n", len(names), claimsPath)
 	}
@@ -239,7 +267,13 @@ func cmdCheck(args []string) {
 			a.Failing.Result = "sat-not-replayed"
 		}
 		replays++
-		rep := P.writeReplay(file, *prop, a, reason, solv)
+		PR := P
+		for pre, p2 := range progs {
+			if strings.HasPrefix(a.Name, pre) {
+				PR = p2
+			}
+		}
+		rep := PR.writeReplay(file, *prop, a, reason, solv)
 		line := fmt.Sprintf("VIOLATION property=%s replay=%s obligation=%s %s", *prop, file, a.Name, reason)
 		if !rep {
 			line += " no-failing-input-found"
